@@ -3,12 +3,12 @@
    one-callback-per-member of the block skeleton; the remaining clauses
    (ctor/dtor recognition, method qualifiers, bases, anonymous ids) rest on
    the search of harness/props/c03.py. *)
-From Coq Require Import NArith List.
+From Coq Require Import NArith List Bool.
 Import ListNotations.
 From CXV Require Import Gen.Blocks Parse.BlocksSM Parse.BlocksSpec Parse.BlocksThms.
 From CXV Require Gen.PinsC03.
 From CXV Require Import Gen.ParserTables Parse.Balanced Parse.BalancedThms Parse.Specs Parse.ClassEnum Parse.CtorDtor.
-From CXV Require Import Gen.TokTy Parse.Declarator Parse.DeclSpec Parse.DeclThms Parse.BaseClause Parse.EnumList Parse.Specs Parse.Init Parse.Members Parse.MethodTail Parse.DeclStmt Parse.MemberStmt Parse.OpName.
+From CXV Require Import Gen.TokTy Parse.Declarator Parse.DeclSpec Parse.DeclThms Parse.BaseClause Parse.EnumList Parse.Specs Parse.Init Parse.Members Parse.MethodTail Parse.DeclStmt Parse.MemberStmt Parse.OpName Parse.FinishClass.
 Open Scope N_scope.
 
 (* the access delivered with a member equals the backward-scan specification
@@ -184,7 +184,46 @@ Theorem operator_name_is_its_tokens : forall t parts s R,
   op_name (t :: parts ++ s :: R) = DOk (t :: parts, s :: R).
 Proof. exact operator_name_exact. Qed.
 
-(* the functions the hand-written models above mirror (_parse_class_decl, _parse_class_decl_base_clause, _maybe_parse_class_enum_decl, _parse_decl, _parse_method_end, _discard_ctor_initializer, _parse_field, _parse_bitfield, _parse_declarations, _parse_function, _parse_pqname_name_operator and _parse_operator_conversion) are, token for
+(* What follows the closing brace of a class / enum definition (_finish_class_or_enum):
+   `};` declares nothing -- except that an anonymous struct / union that is a member becomes one
+   implicit unnamed field; `} d1, ..., dn ;` (trailing declarators), `typedef struct {...} d1, ..., dn;`
+   and the same inside a class body yield one entry per declarator, in order, of its own kind, and
+   EVERY one of them is built on the one type of the definition -- its name or the anonymous id
+   it was given, with the const / volatile written in front of the class key: an anonymous type
+   shares its id with every declarator that uses it, and with nothing else the statement reports. *)
+Theorem trailing_declarators_decode_partial : forall bn c v anon su m cls dcls items last le rest,
+  m_mutable m = false ->
+  Forall ditem_ok items -> ditem_ok last -> last_ok last le ->
+  ev (fun f => finish_class (S (length items)) f false false anon su m cls dcls bn c v (items_toks items last le ++ rest))
+     (DOk (FinDecls (map (ditem_entry (TBase bn c v)) items ++ [last_entry (TBase bn c v) last le]), rest)).
+Proof. exact finish_declarators. Qed.
+
+Theorem typedef_of_class_declarators_decode_partial : forall bn c v anon su m cls dcls items last rest,
+  m_mutable m = false ->
+  Forall td_item_ok items -> td_item_ok last ->
+  ev (fun f => finish_class (S (length items)) f false true anon su m cls dcls bn c v (items_toks items last LSemi ++ rest))
+     (DOk (FinDecls (map (ditem_entry (TBase bn c v)) items ++ [ditem_entry (TBase bn c v) last]), rest)).
+Proof. exact finish_typedef_declarators. Qed.
+
+Theorem trailing_member_declarators_decode_partial : forall bn c v anon su m cls dcls items last e rest,
+  m_extern m = false ->
+  Forall mditem_ok items -> mditem_ok last -> mlast_ok last e ->
+  ev (fun f => finish_class (S (length items)) f true false anon su m cls dcls bn c v (mitems_toks items last e ++ rest))
+     (DOk (FinMembers (map (mditem_entry (TBase bn c v)) items ++ [mlast_entry (TBase bn c v) last e]), rest)).
+Proof. exact finish_member_declarators. Qed.
+
+Theorem definition_closed_by_semicolon : forall n f in_class anon su m cls dcls bn c v semi rest,
+  is SEMI semi = true ->
+  finish_class n f in_class false anon su m cls dcls bn c v (semi :: rest)
+  = DOk (if in_class && anon && su then FinImplicitField else FinNone, rest).
+Proof. exact finish_semicolon. Qed.
+
+Theorem anonymous_id_shared_by_its_declarators : forall bn c v items last le,
+  Forall (fun e => base_of (entry_type e) = (bn, c, v))
+         (map (ditem_entry (TBase bn c v)) items ++ [last_entry (TBase bn c v) last le]).
+Proof. exact finish_declarators_share_the_type. Qed.
+
+(* the functions the hand-written models above mirror (_parse_class_decl, _parse_class_decl_base_clause, _maybe_parse_class_enum_decl, _parse_decl, _parse_method_end, _discard_ctor_initializer, _parse_field, _parse_bitfield, _parse_declarations, _parse_function, _parse_pqname_name_operator, _parse_operator_conversion and _finish_class_or_enum) are, token for
    token of their syntax trees, the ones the models were written against: the
    translator recomputes the digests from the live code and produces Gen/PinsC03.v
    only when they match *)
@@ -233,6 +272,11 @@ Print Assumptions member_statement_decodes_partial.
 Print Assumptions special_member_statement_decodes_partial.
 Print Assumptions call_operator_is_two_tokens.
 Print Assumptions operator_name_is_its_tokens.
+Print Assumptions trailing_declarators_decode_partial.
+Print Assumptions typedef_of_class_declarators_decode_partial.
+Print Assumptions trailing_member_declarators_decode_partial.
+Print Assumptions definition_closed_by_semicolon.
+Print Assumptions anonymous_id_shared_by_its_declarators.
 
 (* `static Foo * f1 : 3 = 1, & m2 ( Bar a ) const noexcept = 0 ;` and `explicit Cls ( ) : a ( 1 ) { }` in class Cls (ids 5 / 6) *)
 Example c03_member_stmt_run :
